@@ -18,6 +18,16 @@ from .scenario import Scenario
 
 SHAPES = ["chain", "cycle", "selfloop", "tree", "diamond", "two_components", "random", "none"]
 ENUM_VALUES = ["RED", "GREEN", "BLUE", "ACTIVE", "lowercase", "MixedCase", "A1", "X_Y", "OFF"]
+# custom scalars configured by dotted paths (several import-carrying shapes); every value ArgGen produces for a
+# custom scalar is the string "2021-03-04T05:06:07", which all three types accept
+SCALAR_CFGS = {
+    "DateTime": {"type": "datetime.datetime", "serialize": "scalars_impl.ser_dt"},
+    "Stamp": {"type": "pathlib.PurePosixPath", "serialize": "scalars_impl.ser_stamp", "parse": "scalars_impl.parse_stamp"},
+    "Money": {"type": "scalars_impl.Money"},
+}
+SCALARS_PY = ("Money = str\n\n\ndef ser_dt(v):\n    return v.isoformat()\n\n\n"
+              "def ser_stamp(v):\n    return str(v)\n\n\ndef parse_stamp(v):\n    return v\n")
+
 DEP_WRAPS = ["{}", "[{}]", "[{}!]", "[[{}]]"]  # never required: keeps argument values finite on cycles
 
 
@@ -71,6 +81,7 @@ def graph_for(shape: str, n: int, r: random.Random) -> dict[int, list[int]]:
 class PruneGen:
     def __init__(self, seed: int):
         self.r = random.Random(seed)
+        self.scalar_fields = 0
 
     def build(self):
         r = self.r
@@ -99,8 +110,14 @@ class PruneGen:
         in_enum_holders = {}
         for i, name in enumerate(ins):
             fs = [f"  n{i}: Int", f"  label: String"]
-            if r.random() < 0.3:
-                fs.append("  when: DateTime")
+            # import-carrying fields at EVERY depth of the dependency graph: custom scalars, Upload
+            for sc_name in ("DateTime", "Stamp", "Money"):
+                if r.random() < 0.3:
+                    fs.append(f"  f{sc_name.lower()}: " + r.choice(["{}", "[{}!]", "{}"]).format(sc_name))
+                    self.scalar_fields += 1
+            if r.random() < 0.12:
+                fs.append("  upload: Upload")
+                self.scalar_fields += 1
             for k, j in enumerate(g[i]):
                 w = r.choice(DEP_WRAPS)
                 fs.append(f"  dep{k}: " + w.format(ins[j]))
@@ -151,7 +168,7 @@ class PruneGen:
             fname = f"lit{e}"
             q.append(f"  {fname}(e: {e}): Int")
             self.root_lit_enum[e] = fname
-        lines.append("scalar DateTime")
+        lines.append("scalar DateTime\n\nscalar Stamp\n\nscalar Money\n\nscalar Upload")
         lines.append("type Query {\n" + "\n".join(q) + "\n}")
         if ins and r.random() < 0.5:
             self.mut_in = r.choice(ins)
@@ -253,6 +270,28 @@ def make(seed: int, tries: int = 30) -> Scenario:
             continue
         r = g.r
         cfg = {"convert_to_snake_case": r.random() < 0.7, "async_client": r.random() < 0.5}
+        # mostly all three configured; sometimes a subset (an unconfigured custom scalar is typed Any: no import)
+        names = list(SCALAR_CFGS) if r.random() < 0.75 else r.sample(list(SCALAR_CFGS), r.randint(0, 2))
+        cfg["scalars"] = {n: dict(SCALAR_CFGS[n]) for n in names}
         notes["subseed"] = k
-        return Scenario(seed=seed, sdl=sdl, queries=queries, config=cfg, features=("prune",), notes=notes)
+        notes["scalar_fields"] = g.scalar_fields
+        notes["scalars_configured"] = len(names)
+        return Scenario(seed=seed, sdl=sdl, queries=queries, config=cfg, features=("prune",), notes=notes,
+                        files={"scalars_impl.py": SCALARS_PY})
     raise RuntimeError(f"no valid prune scenario for seed {seed}: {last}")
+
+
+def deep_scalar_regression() -> Scenario:
+    """OrderInput -> ShippingInput -> WindowInput{Stamp}: a dotted-path custom scalar two levels below the only
+    input an operation uses; plus an enum-typed default and Upload at depth (import-carrying constructs)."""
+    sdl = ("scalar Stamp\nscalar Upload\nenum Speed { SLOW FAST }\n"
+           "input OrderInput { id: ID ship: ShippingInput }\n"
+           "input ShippingInput { window: WindowInput speed: Speed = FAST }\n"
+           "input WindowInput { at: Stamp attachment: Upload note: String }\n"
+           "input Unrelated { x: Int }\n"
+           "type Query { order(o: OrderInput): Int other(u: Unrelated): Int }\n")
+    queries = "query PlaceOrder($o: OrderInput) { order(o: $o) }\n"
+    cfg = {"scalars": {"Stamp": dict(SCALAR_CFGS["Stamp"])}}
+    return Scenario(seed=-7, sdl=sdl, queries=queries, config=cfg, features=("prune",), files={"scalars_impl.py": SCALARS_PY},
+                    notes={"shape": "deep-scalar-regression", "routes": {}, "ops_with_variables": 1, "n_inputs": 4,
+                           "scalar_fields": 2, "scalars_configured": 1})
